@@ -49,7 +49,8 @@ def run(tier):
     except Exception as e:
         pre_und.append('frame scan failed: %s' % e)
     units = [dict(vspec=os.path.join(common.VERIF, 'contracts', 'c16_parser.vspec')),
-             dict(vspec=os.path.join(common.VERIF, 'contracts', 'c16_lexer.vspec'))]
+             dict(vspec=os.path.join(common.VERIF, 'contracts', 'c16_lexer.vspec')),
+             dict(vspec=os.path.join(common.VERIF, 'contracts', 'c16_linecol.vspec'))]
     assumptions = [
         'the parser unit takes "the token list ends with EOF and contains EOF nowhere else" as its invariant at construction; the lexer unit proves exactly that as a postcondition of lex() '
         '(the two units are not linked mechanically: Parser::new is not extracted); fewer than 2^31 tokens',
@@ -70,6 +71,7 @@ def run(tier):
              '(so every token is non-empty and the last one ends at the end of the text), |tokens| == |starts| + 1, last token EOF, no other EOF; terminates'),
         dict(theorem='theorem_tokens_reproduce_the_text', statement='partition(cs, starts) ==> concatenation over i of cs[starts[i] .. starts[i+1] or end) == cs'),
         dict(function='Lexer::read_token', contract='requires cursor on a boundary and not at the end; ensures the cursor moved forward by at least one whole character and is on a boundary; every `unwrap`/`expect`/`unreachable!()` inside is proved safe'),
+        dict(function='compute_line_column', contract='requires the line table of compute_line_starts (proved in the C20 unit: starts at 0, strictly increasing); ensures (1-based line of the last line start <= offset, 1-based byte column offset - start + 1); no index/overflow panic for offset < u32::MAX'),
         dict(function='Parser::parse_file', contract='ensures adv(events) == |tokens| - 1 && leading == 0: every lexed token, trivia included, is advanced exactly once'),
     ]
     not_decided = ['which TokenKind the lexer assigns to a piece of text', 'build_tree replays the events into the green tree (Arc/SmolStr/into_iter().rev())',
